@@ -19,7 +19,7 @@ Ltac ev_iso := cbv -[Rmult Rdiv Rinv Rplus Rminus Ropp IZR Q2R Req_EM_T Rlt_dec 
 Ltac col_step HF :=
   match goal with |- context [@conv_col ?N ?F ?c] =>
     let H := fresh "Hc" in
-    assert (H : @conv_col N F c = Ok (map _ c)) by (apply conv_col_ext; intro v; apply HF);
+    assert (H : @conv_col N F c = Ok (map _ c)) by (apply conv_col_ext; intro v; timeout 60 (apply HF));
     rewrite H; clear H end.
 
 Theorem convert_pressure_step (a : adsorbate RNum) psat T tk rl rm m cp cl cb li pi vb (rp rp' : prep) :
